@@ -22,6 +22,8 @@ from ..httpstream import HttpStreamSpec
 from ..httpstream import init_env
 from ..httpstream import REL
 from ..layerx import explore
+from ..model import calls_in
+from ..model import call_name
 from ..model import attr_chain
 from ..model import last_attr
 from ..model import walk_in_order
@@ -85,6 +87,8 @@ def check(ctx):
     ctx.rule("R11.2", "message sent after its hook, once, payload re-read from the flow/message object")
     ctx.rule("R11.3", "HTTP: nothing reaches the destination between a message hook and check_killed; killed path shape")
     ctx.rule("R11.4", "every layer with a message hook consults the kill marker between hook and send")
+    ctx.rule("R11.5", "Flow.kill never completes a pending hook while some layer forwards unconditionally after its hook (cooperating sites)")
+    unchecked_layers = []
     m = ctx.model
 
     # ---- R11.1
@@ -224,8 +228,40 @@ def check(ctx):
                               "the packed DNS message is not built from the flow's (possibly edited) message", desc=f"{label}: packed from flow")
         ctx.check(kill_checked, "R11.4", where, f"{hook} -> {sendname}", f"{label}: no test of flow.error / flow.live between the hook and the send, so flow.kill() during the hook is ignored and the message is forwarded",
                   desc=f"{label}: kill marker consulted")
+        if not kill_checked:
+            unchecked_layers.append(label)
     ctx.expect_instances("R11.2", 5)
     ctx.expect_instances("R11.4", 5)
+
+    # ---- R11.5 kill() must not release a held hook while layers forward unconditionally after their hook
+    # Cooperating sites: the layers listed in R11.4's findings (F-C11) send the message as soon as their hook completes, without
+    # looking at the kill marker.  For those layers "killed flows are never forwarded" holds today only because Flow.kill() leaves
+    # the pending hook of an intercepted flow blocked (it clears `intercepted` but never sets the resume event).  If kill() starts
+    # to complete the hook (calls resume() / sets the event), the held message of every such layer is forwarded on kill.
+    FLOW = "mitmproxy/flow.py"
+    kill = ctx.func(FLOW, "Flow.kill")
+
+    def releases(fn, seen):
+        for c in calls_in(fn):
+            name = call_name(c)
+            if name.endswith("_resume_event.set"):
+                return c
+            if name.startswith("self.") and name.count(".") == 1 and m.has(FLOW, "Flow." + name[5:]) and name[5:] not in seen:
+                seen.add(name[5:])
+                d = m.func(FLOW, "Flow." + name[5:])
+                if isinstance(d, (ast.FunctionDef, ast.AsyncFunctionDef)):
+                    r = releases(d, seen)
+                    if r is not None:
+                        return c
+        return None
+
+    ctx.require(releases(ctx.func(FLOW, "Flow.resume"), {"resume"}) is not None, "Flow.resume no longer sets the resume event (R11.5 premise changed)")
+    rel = releases(kill, {"kill"})
+    ctx.check(rel is None or not unchecked_layers, "R11.5", (FLOW, "Flow.kill", rel if rel is not None else kill), "Flow.kill completes a pending (intercepted) hook",
+              f"Flow.kill() releases the hook an intercepted flow is held in (`{norm(rel) if rel is not None else ''}`), but {', '.join(unchecked_layers)} forward the held message as soon as their hook "
+              "completes without consulting the kill marker: killing an intercepted message sends it to its destination",
+              desc=f"Flow.kill leaves a held hook blocked (layers without kill check: {len(unchecked_layers)})")
+    ctx.expect_instances("R11.5", 1)
 
     # ---- R11.3 HTTP
     spec = HttpStreamSpec(m)
@@ -274,6 +310,7 @@ def check(ctx):
 
 I = REL
 MUTANTS = [
+    Mutant("kill-resumes-held-hook", "mitmproxy/flow.py", "        self.error = Error(Error.KILLED_MESSAGE)\n        self.intercepted = False\n", "        self.error = Error(Error.KILLED_MESSAGE)\n        self.resume()\n", "R11.5"),
     Mutant("no-wait-for-resume", MS, "            if isinstance(data, flow.Flow):\n                await data.wait_for_resume()  # pragma: no cover\n", "            pass\n", "R11.1"),
     Mutant("hookcompleted-before-hook", SRV, "        await self.handle_hook(hook)\n        if hook.blocking:\n            await self.server_event(events.HookCompleted(hook))\n",
            "        if hook.blocking:\n            await self.server_event(events.HookCompleted(hook))\n        await self.handle_hook(hook)\n", "R11.1"),
